@@ -350,11 +350,14 @@ pub struct Probe {
     waker: Option<Waker>,
     /// addresses returned from handle_pending_outbound_connection
     pub extra_addrs: Vec<Multiaddr>,
+    /// handlers emit one final event (9000 + field) from `poll_close`, after this many `Pending`s
+    /// (None = no final events)
+    pub close_events: Option<u8>,
 }
 
 impl Probe {
     pub fn new(f: u8, log: Log, deny: DenyMask) -> Self {
-        Probe { f, log, deny, counters: [0; 4], cmds: VecDeque::new(), waker: None, extra_addrs: vec![] }
+        Probe { f, log, deny, counters: [0; 4], cmds: VecDeque::new(), waker: None, extra_addrs: vec![], close_events: None }
     }
     pub fn push(&mut self, c: ToSwarm<ProbeOut, u32>) {
         self.cmds.push_back(c);
@@ -382,7 +385,7 @@ impl NetworkBehaviour for Probe {
     fn handle_established_inbound_connection(&mut self, cid: ConnectionId, peer: PeerId, _l: &Multiaddr, _r: &Multiaddr) -> Result<THandler<Self>, ConnectionDenied> {
         let d = self.deny.est_in.decide(&mut self.counters[2]);
         self.rec(LogEv::EstIn { f: self.f, cid, peer, denied: d });
-        if d { Err(Self::denied()) } else { Ok(ProbeHandler::new(self.f, cid, self.log.clone())) }
+        if d { Err(Self::denied()) } else { Ok(ProbeHandler::new(self.f, cid, self.log.clone(), self.close_events)) }
     }
     fn handle_pending_outbound_connection(&mut self, cid: ConnectionId, peer: Option<PeerId>, addrs: &[Multiaddr], _r: Endpoint) -> Result<Vec<Multiaddr>, ConnectionDenied> {
         let d = self.deny.pending_out.decide(&mut self.counters[1]);
@@ -392,7 +395,7 @@ impl NetworkBehaviour for Probe {
     fn handle_established_outbound_connection(&mut self, cid: ConnectionId, peer: PeerId, addr: &Multiaddr, _r: Endpoint, _p: PortUse) -> Result<THandler<Self>, ConnectionDenied> {
         let d = self.deny.est_out.decide(&mut self.counters[3]);
         self.rec(LogEv::EstOut { f: self.f, cid, peer, addr: addr.clone(), denied: d });
-        if d { Err(Self::denied()) } else { Ok(ProbeHandler::new(self.f, cid, self.log.clone())) }
+        if d { Err(Self::denied()) } else { Ok(ProbeHandler::new(self.f, cid, self.log.clone(), self.close_events)) }
     }
     fn on_swarm_event(&mut self, event: FromSwarm) {
         let f = self.f;
@@ -461,10 +464,12 @@ pub struct ProbeHandler {
     replies: VecDeque<u32>,
     waker: Option<Waker>,
     polled_once: bool,
+    /// remaining Pendings before the final event; None = no final event / already sent
+    close_pending: Option<u8>,
 }
 impl ProbeHandler {
-    fn new(f: u8, cid: ConnectionId, log: Log) -> Self {
-        ProbeHandler { f, cid, log, replies: VecDeque::new(), waker: None, polled_once: false }
+    fn new(f: u8, cid: ConnectionId, log: Log, close_events: Option<u8>) -> Self {
+        ProbeHandler { f, cid, log, replies: VecDeque::new(), waker: None, polled_once: false, close_pending: close_events }
     }
 }
 impl Drop for ProbeHandler {
@@ -507,6 +512,21 @@ impl ConnectionHandler for ProbeHandler {
         }
     }
     fn on_connection_event(&mut self, _e: ConnectionEvent<DeniedUpgrade, DeniedUpgrade, (), ()>) {}
+    fn poll_close(&mut self, cx: &mut Context<'_>) -> Poll<Option<u32>> {
+        match self.close_pending {
+            None => Poll::Ready(None),
+            Some(0) => {
+                self.close_pending = None;
+                Poll::Ready(Some(9000 + self.f as u32))
+            }
+            Some(n) => {
+                // an asynchronous flush that is not ready yet (re-polled: no lost wake-up)
+                self.close_pending = Some(n - 1);
+                cx.waker().wake_by_ref();
+                Poll::Pending
+            }
+        }
+    }
 }
 
 // ------------------------------------------------------------------------------------------
